@@ -31,8 +31,8 @@ def run(args):
     rep = C.Report("C13")
     thorough = C.tier() == "thorough"
     rnd = random.Random(C.seed())
-    rep.cov["rule"] = ("TLC enumerates from HmsValue, for 20 static types (scalars, ranges, any-objects, lists, nested lists, "
-                       "options, objects): all pairs (a, b) of one type with the specified structural equality; all "
+    rep.cov["rule"] = ("TLC enumerates from HmsValue, for 23 static types (scalars, ranges, any-objects incl. nested containers of every kind "
+                       "as members, lists, nested lists, options, objects, objects / options / lists of any-objects): all pairs (a, b) of one type with the specified structural equality; all "
                        "histories Clone + <= %d mutations (overwrite a scalar element/field, push) on either side with "
                        "the resulting pair of trees; all JSON-representable values; each replayed on the runtime value "
                        "libraries; non-trivial = distinct cases involving a container or an unequal pair" % (3 if thorough else 2))
